@@ -23,7 +23,8 @@ def write_pair(dirpath, name, src_grid, ref_grid, src, ref, src_valid=None, ref_
     """
     src, ref: (bands, h, w) arrays; *_valid: (h, w) bool or None.
     *_nodata: 'nan' (NaN nodata), a number (numeric nodata written under invalid pixels) or 'mask' (no nodata value,
-    internal mask band; invalid pixels hold an arbitrary finite number) or 'mask+tag' (the same with a nodata tag as well).
+    internal mask band; invalid pixels hold an arbitrary finite number) or 'mask+tag' (the same with a nodata tag as well)
+    or 'alpha' (8-bit file with an alpha band holding semi-transparent valid pixels).
     """
     dirpath = pathlib.Path(dirpath)
     src = np.asarray(src, dtype='float64')
@@ -43,6 +44,13 @@ def write_pair(dirpath, name, src_grid, ref_grid, src, ref, src_valid=None, ref_
         elif enc == 'mask':
             a[:, ~valid] = 77.0
             rasters.write_tif(path, grid, a, dtype=dtype, nodata=None, mask=valid, **(kw or {}))
+        elif enc == 'alpha':
+            # 8-bit image with an alpha band whose valid pixels are partly semi-transparent (alpha 1..254 is valid for GDAL);
+            # values must be integers in 0..255 and the band count 1 or 3
+            a[:, ~valid] = 77.0
+            pat = np.array([255, 128, 1, 254, 200, 255, 17])
+            av = np.where(valid, pat[(np.add.outer(np.arange(grid.h), 3 * np.arange(grid.w))) % len(pat)], 0)
+            rasters.write_tif(path, grid, a, dtype='uint8', nodata=None, alpha=av, **(kw or {}))
         elif enc == 'mask+tag':
             # an internal mask band *and* a nodata tag (GDAL: the mask band decides; the tag value is just a number)
             a[:, ~valid] = 77.0
